@@ -1,8 +1,14 @@
 """C04 - physical scaling is exact decimal arithmetic and invertible."""
 import copy as _copy
 import decimal
+import struct
 
 import canmatrix.canmatrix as cm
+
+# the decimal context of the thread as it is once the library is imported.  Every observation starts from a copy of it, so that a case
+# carries everything its result depends on (a replay in a fresh process sees what the sweep saw); whatever the library does to the
+# context while a case is observed stays in force for the rest of that case
+_CTX0 = decimal.getcontext().copy()
 
 PID = "C04"
 RULE = ("ops: 'dec' = primitives of the decimal model (add/sub/mul/div/round) on random operands with 1..30 digit coefficients, "
@@ -21,9 +27,19 @@ RULE = ("ops: 'dec' = primitives of the decimal model (add/sub/mul/div/round) on
         "filled anew; the default limits are then recomputed by a generated sequence of set_min(None) / set_max(None) / calc_min() / calc_max() "
         "calls in any order (maximum alone first, minimum first, repeated), before or after the conversions.  The case sent to the judge is the "
         "final state; what the object was before must not show. "
+        "What scaling does not depend on: the signal carries a unit (one in two: a common unit text, or the tail / the whole of one of its own "
+        "labels, so that labels end with the unit: 'SNA' with 'A', '100%' with '%', '12.5 km/h' with 'km/h') and a comment, given to the "
+        "constructor or assigned later; labels include texts that read like a number with a unit. "
+        "Other signals of the process ('others', one case in three): one or two IEEE float signals (32 / 64 bit, own factor and offset) or a "
+        "64 bit integer signal are used first - raw2phys, DecodedSignal.phys_value / named_value, phys2raw(raw2phys), Frame.decode, "
+        "CanMatrix.decode, Frame.encode - before the signal under test is built (its default limits are computed afterwards) or between "
+        "construction and conversion; in the frame paths the neighbour signal is a byte-wide integer or a float32 / float64 signal whose "
+        "physical value is read before or after that of the signal under test.  Every observation starts from the decimal context the "
+        "thread had when the library was imported. "
         "Non-trivial = distinct case with a non-integer factor or non-zero offset.")
 EXHAUSTIVE = {"quick": False, "thorough": False}
-PARTIAL = ["float signals (raw value converted through Decimal(float)) are outside this property (integer signals)",
+PARTIAL = ["float signals (raw value converted through Decimal(float)) are outside this property (integer signals); they occur as other "
+           "signals of the same process / frame, their own results are not judged (only the neighbour of the frame paths, on a dyadic value)",
            "cases whose exact product or sum needs more than 28 significant digits are outside the stated domain; they are still "
            "compared with the model (correspondence) but not judged by the Spec"]
 ASSUMPTIONS = ["default decimal context (prec=28, ROUND_HALF_EVEN, no traps for Inexact/Rounded)"]
@@ -84,9 +100,47 @@ def rand_sigdesc(rng, width=None):
             if lo <= k <= hi and k not in keys:
                 keys.append(k)
         # a description may be empty; descriptions that differ in letter case or in blanks are different descriptions
-        labels = ["On", "Off", "Error", "SNA", "Init", "On", "", "0", "two words", "on", "ON", " On", "off"]
+        labels = ["On", "Off", "Error", "SNA", "Init", "On", "", "0", "two words", "on", "ON", " On", "off",
+                  "100%", "12.5 km/h", "Pass", "Warm", "1 A", "-3", "INV"]
         values = [[k, rng.choice(labels)] for k in keys]
-    return {"size": size, "signed": signed, "factor": rand_factor(rng), "offset": rand_offset(rng), "values": values}
+    sd = {"size": size, "signed": signed, "factor": rand_factor(rng), "offset": rand_offset(rng), "values": values}
+    # what scaling has nothing to do with: the unit text and the comment of the signal.  A label may end with the unit text or be the unit text
+    c = rng.random()
+    if c < 0.3:
+        sd["unit"] = rng.choice(UNITS)
+    elif c < 0.55 and values:
+        lab = rng.choice(values)[1]
+        if lab:
+            sd["unit"] = lab[-rng.randint(1, len(lab)):]
+    if rng.random() < 0.2:
+        sd["comment"] = rng.choice(["", "scaled", "On", "factor 0.1 offset 5", "see SNA"])
+    return sd
+
+
+UNITS = ["A", "V", "%", "km/h", "s", "m", "rpm", "\u00b0C", "n", "f", "N", "t", "0", " ", "h"]
+OTHER_KINDS = ["f32", "f64", "f32", "f64", "int"]
+OTHER_USES = ["raw2phys", "decoded", "named", "back", "frame", "matrix", "encode"]
+NEIGHBOURS = ["u8", "u8", "f32", "f64"]
+
+
+def rand_others(rng):
+    """other signals of the same process that are used before the signal under test converts: IEEE float signals, a wide integer signal"""
+    out = []
+    for _ in range(rng.choice([1, 1, 2])):
+        out.append({"kind": rng.choice(OTHER_KINDS), "factor": rng.choice([[False, "1", 0], rand_factor(rng)]), "offset": rand_offset(rng),
+                    "x": rng.choice([0, 1, -1, 171, rng.randint(-20000, 20000)]), "use": rng.choice(OTHER_USES),
+                    "when": rng.choice(["before", "between"])})
+    return out
+
+
+def rand_env(rng, c):
+    """the company the signal under test keeps: other signals used first, the kind of its neighbour in the frame paths"""
+    if rng.random() < 0.35:
+        c["others"] = rand_others(rng)
+    if c.get("via") in ("frame", "matrix"):
+        c["nb"] = rng.choice(NEIGHBOURS)
+        c["nbfirst"] = rng.random() < 0.5
+    return c
 
 
 def raws_for(rng, sd, tier):
@@ -199,13 +253,13 @@ def gen(rng, tier, shard, nshards):
                 if i % 4 == 0:
                     hist = rand_hist(rng, sd)
                 c["hist"] = hist
-            yield {"op": "scale", "c": c}
+            yield {"op": "scale", "c": rand_env(rng, c)}
         if sd["values"]:
             for lab in sorted({v for _, v in sd["values"]} | {"NoSuchLabel"}):
                 c = {"sig": sd, "label": lab, "via": rng.choice(LABEL_VIAS)}
                 if with_hist:
                     c["hist"] = rand_hist(rng, sd)
-                yield {"op": "label", "c": c}
+                yield {"op": "label", "c": rand_env(rng, c)}
 
 
 def neighbours(case, rng, shard, nshards):
@@ -218,7 +272,7 @@ def neighbours(case, rng, shard, nshards):
                 c = {"sig": sd, "raw": r, "via": rng.choice(VIAS)}
                 if rng.random() < 0.6:
                     c["hist"] = rand_hist(rng, sd)
-                yield {"op": "scale", "c": c}
+                yield {"op": "scale", "c": rand_env(rng, c)}
             # the same signal and path as the disagreeing case, other raw values and other histories
             if case["op"] == "scale":
                 sd0 = case["c"]["sig"]
@@ -226,18 +280,40 @@ def neighbours(case, rng, shard, nshards):
                     c = {"sig": sd0, "raw": r, "via": case["c"].get("via", "signal")}
                     if "hist" in case["c"]:
                         c["hist"] = rng.choice([case["c"]["hist"], rand_hist(rng, sd0)])
+                    for k in ("others", "nb", "nbfirst"):
+                        if k in case["c"]:
+                            c[k] = case["c"][k]
                     yield {"op": "scale", "c": c}
+
+
+def _dress(s, sd):
+    """unit and comment assigned to the existing object"""
+    if "unit" in sd:
+        s.unit = sd["unit"]
+    if "comment" in sd:
+        s.add_comment(sd["comment"])
+
+
+def _dress_kw(sd):
+    """unit and comment as constructor arguments"""
+    kw = {}
+    if "unit" in sd:
+        kw["unit"] = sd["unit"]
+    if "comment" in sd:
+        kw["comment"] = sd["comment"]
+    return kw
 
 
 def mksig(sd):
     if sd["size"] % 2:
-        s = cm.Signal("s", size=sd["size"], is_signed=sd["signed"], factor=dec_of(sd["factor"]), offset=dec_of(sd["offset"]))
+        s = cm.Signal("s", size=sd["size"], is_signed=sd["signed"], factor=dec_of(sd["factor"]), offset=dec_of(sd["offset"]), **_dress_kw(sd))
     else:
         # the signedness is assigned after construction and the default limits are computed anew, as an editor does
         s = cm.Signal("s", size=sd["size"], is_signed=not sd["signed"], factor=dec_of(sd["factor"]), offset=dec_of(sd["offset"]))
         s.is_signed = sd["signed"]
         s.set_min(None)
         s.set_max(None)
+        _dress(s, sd)
     for k, v in sd["values"]:
         s.add_values(k, v)
     return s
@@ -316,6 +392,9 @@ def build(sd, hist):
         kw["max"] = decimal.Decimal(1)
     if not prev and hist["tab"] == "ctor":
         kw["values"] = {k: v for k, v in sd["values"]}
+    if hist["ctor"] == "plain":
+        # unit and comment are there from the start (otherwise they are assigned when the final state is reached)
+        kw.update(_dress_kw(sd))
     s = cm.Signal("s", size=first["size"], is_signed=first["signed"], factor=dec_of(first["factor"]), offset=dec_of(first["offset"]), **kw)
     cur = first
     for i, st in enumerate(prev):
@@ -327,6 +406,8 @@ def build(sd, hist):
         cur = st
     if prev:
         _assign(s, cur, sd, hist["order"])
+    if hist["ctor"] != "plain":
+        _dress(s, sd)
     if hist["tab"] == "clear":
         s.values.clear()
     elif hist["tab"] == "rebind":
@@ -334,7 +415,7 @@ def build(sd, hist):
     elif hist["tab"] == "del":
         for k in list(s.values):
             del s.values[k]
-    if "values" not in kw:
+    if not (not prev and hist["tab"] == "ctor"):
         for k, v in sd["values"]:
             s.add_values(k, v)
     return _uses(s, hist["uses"])
@@ -354,11 +435,24 @@ def _finish(s, hist):
     return mn, mx
 
 
-def _in_frame(s, sd, matrix):
-    """the signal at the start of a frame of its own, followed by a byte-wide signal of another scaling"""
+NB_FLOAT = -21.375      # the neighbour's raw value when it is a float signal (dyadic: Decimal(float) has six digits)
+
+
+def _nb_tail(nb):
+    """(payload bytes of the neighbour, its exact physical value)"""
+    if nb == "u8":
+        return bytearray([0xA5]), decimal.Decimal(0xA5 * 3 + 7)
+    return bytearray(struct.pack("<f" if nb == "f32" else "<d", NB_FLOAT)), decimal.Decimal("-57.125")
+
+
+def _in_frame(s, sd, matrix, nb="u8"):
+    """the signal at the start of a frame of its own, followed by a signal of another scaling: byte-wide integer, or IEEE float (32 / 64 bit)"""
     nbytes = (sd["size"] + 7) // 8
-    n = cm.Signal("n", start_bit=nbytes * 8, size=8, is_signed=False, factor=decimal.Decimal(3), offset=decimal.Decimal(7))
-    f = cm.Frame("f", arbitration_id=cm.ArbitrationId(0x123, extended=False), size=nbytes + 1)
+    if nb == "u8":
+        n = cm.Signal("n", start_bit=nbytes * 8, size=8, is_signed=False, factor=decimal.Decimal(3), offset=decimal.Decimal(7))
+    else:
+        n = cm.Signal("n", start_bit=nbytes * 8, size=32 if nb == "f32" else 64, is_float=True, factor=decimal.Decimal(3), offset=decimal.Decimal(7))
+    f = cm.Frame("f", arbitration_id=cm.ArbitrationId(0x123, extended=False), size=nbytes + n.size // 8)
     f.add_signal(s)
     f.add_signal(n)
     if not matrix:
@@ -368,11 +462,48 @@ def _in_frame(s, sd, matrix):
     return f, (lambda data: db.decode(f.arbitration_id, data)), (lambda d: db.encode(f.arbitration_id, d))
 
 
+def _use_other(o):
+    """another signal of the process is used; what it yields is not what is observed here"""
+    try:
+        kind, x, use = o["kind"], o["x"], o["use"]
+        size = 32 if kind == "f32" else 64
+        t = cm.Signal("t", size=size, is_float=kind != "int", is_signed=True, factor=dec_of(o["factor"]), offset=dec_of(o["offset"]))
+        t.add_values(171, "SNA")
+        if kind == "int":
+            rawv = x * 461168601842738      # up to 2^63
+            data = bytearray(rawv.to_bytes(8, "little", signed=True))
+        else:
+            rawv = x / 8.0
+            data = bytearray(struct.pack("<f" if kind == "f32" else "<d", rawv))
+        if use == "raw2phys":
+            t.raw2phys(rawv)
+        elif use == "decoded":
+            cm.DecodedSignal(rawv, t).phys_value
+        elif use == "named":
+            cm.DecodedSignal(rawv, t).named_value
+        elif use == "back":
+            t.phys2raw(t.raw2phys(rawv))
+        else:
+            g = cm.Frame("g", arbitration_id=cm.ArbitrationId(0x321, extended=False), size=size // 8)
+            g.add_signal(t)
+            if use == "frame":
+                g.decode(data)["t"].phys_value
+            elif use == "matrix":
+                db = cm.CanMatrix()
+                db.add_frame(g)
+                db.decode(g.arbitration_id, data)["t"].named_value
+            else:
+                g.decode(g.encode({"t": t.raw2phys(rawv)}))["t"].phys_value
+    except Exception:  # noqa
+        pass
+
+
 def _tri_or_text(v):
     return tri(v) if isinstance(v, decimal.Decimal) else ("<not a decimal number: %r>" % (v,))
 
 
 def observe(case):
+    decimal.setcontext(_CTX0.copy())
     op, c = case["op"], case["c"]
     if op == "dec":
         which = c[0]
@@ -383,6 +514,7 @@ def observe(case):
         r = {"add": a + b, "sub": a - b, "mul": a * b, "div": (a / b) if which == "div" else None}[which]
         return tri(r)
     sd, hist, via = c["sig"], c.get("hist"), c.get("via", "signal")
+    others, nb = c.get("others", []), c.get("nb", "u8")
     s = mksig(sd)
     # another signal lives in the same process: same labels on other keys, other scaling.  It converts first; what one signal
     # converts is no business of another
@@ -393,7 +525,13 @@ def observe(case):
     sd2["factor"] = [False, "3", 0]
     sd2["offset"] = [False, "7", 0]
     decoy = mksig(sd2)
+    for o in others:
+        if o["when"] == "before":
+            _use_other(o)
     s = build(sd, hist)
+    for o in others:
+        if o["when"] != "before":
+            _use_other(o)
     for k2, v2 in sd2["values"]:
         try:
             decoy.phys2raw(v2)
@@ -407,8 +545,11 @@ def observe(case):
         try:
             if via == "frame":
                 # the label goes in through Frame.encode and the raw key is read back from the payload
-                f, dec, enc = _in_frame(s, sd, False)
-                r = dec(enc({"s": c["label"]}))["s"].raw_value
+                f, dec, enc = _in_frame(s, sd, False, nb)
+                got = dec(enc({"s": c["label"]}))
+                if c.get("nbfirst"):
+                    got["n"].phys_value
+                r = got["s"].raw_value
             else:
                 r = s.phys2raw(c["label"])
         except Exception:  # noqa
@@ -432,15 +573,21 @@ def observe(case):
         phys = d.phys_value
         named = d.named_value
     else:
-        f, dec, enc = _in_frame(s, sd, via == "matrix")
+        f, dec, enc = _in_frame(s, sd, via == "matrix", nb)
         nbytes = (sd["size"] + 7) // 8
-        data = bytearray((raw & ((1 << sd["size"]) - 1)).to_bytes(nbytes, "little")) + bytearray([0xA5])
+        tail, nb_want = _nb_tail(nb)
+        data = bytearray((raw & ((1 << sd["size"]) - 1)).to_bytes(nbytes, "little")) + tail
         got = dec(data)
+        # the physical value of the neighbour is read before or after that of the signal under test
+        if c.get("nbfirst"):
+            nb_phys = got["n"].phys_value
         d = got["s"]
         phys = d.phys_value
         named = d.named_value
-        if d.raw_value != raw or got["n"].phys_value != 0xA5 * 3 + 7:
-            phys = "<decoding the frame gave raw %r for %r, neighbour %r>" % (d.raw_value, raw, got["n"].phys_value)
+        if not c.get("nbfirst"):
+            nb_phys = got["n"].phys_value
+        if d.raw_value != raw or nb_phys != nb_want:
+            phys = "<decoding the frame gave raw %r for %r, neighbour %r>" % (d.raw_value, raw, nb_phys)
     # the two ways to a named value (DecodedSignal.named_value, raw2phys(decode_to_str=True)) agree
     named2 = s.raw2phys(raw, decode_to_str=True)
     if isinstance(named, str) != isinstance(named2, str) or (isinstance(named, str) and named != named2):
@@ -459,6 +606,21 @@ def project(impl):
 
 def features(case, impl):
     yield "op=" + case["op"]
+    if case["op"] != "dec":
+        c, sd = case["c"], case["c"]["sig"]
+        u = sd.get("unit", "")
+        labs = [v for _, v in sd["values"]]
+        yield "unit: " + ("none" if not u else "a label ends with it" if any(v.endswith(u) for v in labs) else "no label ends with it")
+        if case["op"] == "label" and u and c["label"].endswith(u):
+            yield "label ends with the unit"
+        if "comment" in sd:
+            yield "signal has a comment"
+        kinds = sorted({"float" if o["kind"] != "int" else "integer" for o in c.get("others", [])})
+        yield "other signals used first: " + ("+".join(kinds) if kinds else "none")
+        for o in c.get("others", []):
+            yield "other signal used %s construction" % ("before" if o["when"] == "before" else "after")
+        if "nb" in c and c.get("via") in ("frame", "matrix"):
+            yield "neighbour in the frame: %s, read %s" % ("float" if c["nb"] != "u8" else "integer", "first" if c.get("nbfirst") else "second")
     if case["op"] == "dec":
         yield "dec:" + case["c"][0]
     elif case["op"] == "scale":
